@@ -22,7 +22,9 @@ whose own attempt was refused must get ConnectionException, everybody else its o
 blocked (a lock that is not given back on that path shows up as a deadlock).  A request may also be marked `lost`: the
 peer stays silent for it, the read comes back short, the client closes the connection and the next call re-opens it;
 that caller must get its own error object, every other caller its own reply (a reconnect that escapes the client lock
-shows up as a reply that was delivered but not received)."""
+shows up as a reply that was delivered but not received).  A case may contain BROADCASTS (requests to unit 0 on a
+client with broadcast_enable): written, nothing read, no unit answers; the broadcaster must get the broadcast marker,
+and its frame (and its flush of the input) must not land inside another caller's send..receive interval."""
 import sys
 import threading
 
@@ -444,7 +446,12 @@ class WireClient(ModbusTcpClient):
         return ModbusTcpClient.connect(self)
 
 
+BROADCAST_MARKER = b'Broadcast write sent - no response expected'
+
+
 def canon_result(req, rr):
+    if isinstance(rr, (bytes, bytearray)) and bytes(rr) == BROADCAST_MARKER:
+        return [req.transaction_id, {'bcast': 1}]
     if isinstance(rr, Exception):
         return [req.transaction_id, {'err': errkind(rr)}]
     if isinstance(rr, ExceptionResponse):
@@ -484,7 +491,9 @@ def run_schedule(threads, chooser, connected=True):
     install_shims()
     w = world(connected)
     env = Env.current = Env(sched, lats, w['fail'])
-    client = WireClient('192.0.2.1', 502, timeout=1)
+    # a case with broadcasts runs on a client with broadcast_enable (there, unit 0 <=> broadcast)
+    benable = any(r.get('bcast') for t in threads for r in t)
+    client = WireClient('192.0.2.1', 502, timeout=1, broadcast_enable=benable)
     if w['connected']:
         client.connect()
     env.scripted = True
@@ -502,7 +511,7 @@ def run_schedule(threads, chooser, connected=True):
         try:
             for k, r in enumerate(threads[i]):
                 lats[i] = r['lat']
-                env.lost[i] = bool(r.get('lost'))
+                env.lost[i] = bool(r.get('lost')) or bool(r.get('bcast'))      # no unit answers a broadcast
                 req = ReadHoldingRegistersRequest(r['addr'], r['count'], unit=r['unit'])
                 marks.append((i, k, 'begin', len(sched.events)))
                 try:
@@ -579,7 +588,9 @@ def intervals(run):
         r = [p for p in range(lo, hi) if run.events[p][0] == i and run.events[p][1] == 'recv']
         if not s:
             continue
-        last = r[-1] if ('end' in b and r) else (s[0] if 'end' in b else len(run.events))
+        w2 = [p for p in range(lo, hi) if run.events[p][0] == i and run.events[p][1] == 'send2']
+        # a call that reads nothing (a broadcast) is in flight between its two writes
+        last = r[-1] if ('end' in b and r) else ((w2[-1] if w2 else s[0]) if 'end' in b else len(run.events))
         out.append((i, k, s[0], last))
     return out
 
@@ -658,6 +669,12 @@ def check_property(rep, case, run, expected, threads):
                                   thread=i, k=k, request=q, got=r[1])
                     ok = False
                 continue
+            if q.get('bcast'):
+                if r[1] != {'bcast': 1}:
+                    rep.violation('a broadcaster did not get the broadcast marker', case, thread=i, k=k, request=q,
+                                  got=r[1])
+                    ok = False
+                continue
             if q.get('lost'):
                 if r[1] != {'err': 'modbusio'}:
                     rep.violation('a caller whose reply was lost did not get its error object', case,
@@ -684,6 +701,8 @@ def model_scope():
         return 'whole'
     if outer == 'connectOnly' and inner == 'whole':
         return 'connectLocked'
+    if outer == 'broadcastOutside' and inner == 'whole':
+        return 'broadcastOutside'    # a broadcast is written after the client lock has been given back
     if outer == 'connectOnlyWhenCold' and inner == 'whole':
         return 'lockOnlyWhenCold'    # a caller that sees a socket goes straight to the manager
     if outer == 'acquireTryFinally:connectOutsideTry' and inner == 'whole':
@@ -818,6 +837,23 @@ def with_losses(rng, th, n=1):
     return th
 
 
+def with_broadcasts(rng, th, n=1):
+    """turn `n` of the requests into broadcasts (unit 0 on a broadcast-enabled client); the ordinary requests of such a
+    case never address unit 0"""
+    th = [[dict(r) for r in t] for t in th]
+    for t in th:
+        for r in t:
+            if r['unit'] == 0:
+                r['unit'] = 1
+    slots = [(i, k) for i, t in enumerate(th) for k in range(len(t))]
+    for (i, k) in rng.sample(slots, min(n, len(slots))):
+        th[i][k]['unit'] = 0
+        th[i][k]['bcast'] = 1
+        th[i][k]['lat'] = 0
+        th[i][k].pop('lost', None)
+    return th
+
+
 def gen_threads(rng, shape, maxlat=2):
     """different unit per thread in ~2/3 of the cases, any units in the rest (same unit, 0 and 255 included)"""
     mode = rng.random()
@@ -930,7 +966,17 @@ def run(ctx):
         loss_plan = loss_plan * 3 + [((3, 3), True, 2), ((2, 2, 2), True, 2), ((3, 2, 1), False, 1),
                                      ((2, 2, 2, 1), True, 2), ((3, 3, 2), {'connected': True, 'fail': [1]}, 2)]
     first = [((1, 1), {'connected': False, 'fail': [0]}, 1, 0), ((2, 1), {'connected': False, 'fail': [0, 1]}, 1, 0)]
-    plan = first + [(sh, w, 1, nl) for sh, w, nl in loss_plan] + [(sh, w, k, 0) for sh, w, k in plan]
+    # broadcasts (client with broadcast_enable, unit 0): threads mixing broadcasts and ordinary requests; `nlost` < 0
+    # encodes "-n broadcasts" (and one lost reply besides when n >= 10)
+    bc_plan = [((1, 1), True, -1), ((2, 1), True, -1), ((1, 2), False, -1), ((2, 2), True, -2), ((2, 2), False, -1),
+               ((2, 1, 1), True, -1), ((2, 2, 1), True, -2), ((2, 2), {'connected': False, 'fail': [0]}, -1),
+               ((3, 2), True, -12)]
+    if not ctx.quick:
+        bc_plan = bc_plan * 3 + [((3, 3), True, -2), ((2, 2, 2), True, -3), ((2, 2, 2, 1), True, -2), ((3, 3, 2), False, -13)]
+    mixed = []
+    for n_ in range(max(len(bc_plan), len(loss_plan))):
+        mixed += [x for x in (loss_plan[n_:n_ + 1] + bc_plan[n_:n_ + 1])]
+    plan = first + [(sh, w, 1, nl) for sh, w, nl in mixed] + [(sh, w, k, 0) for sh, w, k in plan]
     exhaustive = True
     for shape, conn, ncases, nlost in plan:
         for _ in range(ncases):
@@ -940,8 +986,12 @@ def run(ctx):
                 exhaustive = False
                 break
             th = gen_threads(rng, shape, maxlat=1 if sum(shape) > 2 else 2)
-            if nlost:
+            if nlost > 0:
                 th = with_losses(rng, th, nlost)
+            elif nlost < 0:
+                if -nlost >= 10:
+                    th = with_losses(rng, th, 1)
+                th = with_broadcasts(rng, th, (-nlost) % 10)
             status = {}
             for r in explore(th, 60000, lambda: left() + 12 - ctx.scale(6, 200), False, conn, status):
                 add(th, conn, r, 'dfs')
@@ -952,7 +1002,8 @@ def run(ctx):
                 exhaustive = False
                 rep.hist['dfs-truncated:%s' % 'x'.join(map(str, shape))] += 1
             rep.hist['dfs-cases:%s:%s%s' % ('x'.join(map(str, shape)), world_tag(conn),
-                                            ':lost=%d' % nlost if nlost else '')] += 1
+                                            (':lost=%d' % nlost if nlost > 0 else ':bcast=%d' % (-nlost % 10))
+                                            if nlost else '')] += 1
     flush()
     rep.exhaustive = exhaustive and not enough()
 
@@ -965,6 +1016,8 @@ def run(ctx):
         th = gen_threads(rng, shape)
         if rng.random() < 0.4:
             th = with_losses(rng, th, rng.choice([1, 1, 2]))
+        if rng.random() < 0.35:
+            th = with_broadcasts(rng, th, rng.choice([1, 1, 2]))
         conn = rng.random() < 0.6
         if not conn and rng.random() < 0.6:
             conn = {'connected': False, 'fail': rng.choice(scripts + [[rng.randrange(4)], [0, 1, 2]])}
@@ -982,6 +1035,8 @@ def run(ctx):
                 th = gen_threads(rng, shape, maxlat=1)
                 if rng.random() < 0.5:
                     th = with_losses(rng, th, 1)
+                if rng.random() < 0.4:
+                    th = with_broadcasts(rng, th, 1)
                 budget = min(cap - total[0], 6000)
                 if budget <= 0 or left() < 15:
                     break
